@@ -162,18 +162,18 @@ def _shard_entry(args):
         return ("err", "".join(traceback.format_exception(type(e), e, e.__traceback__))[-4000:])
 
 
-def pmap(func, payloads, procs=None):
+def pmap(func, payloads, procs=None, fresh=False):
     """Run func(payload) for each payload on a fork()ed pool; func must be a module-level function.
     Returns the list of results in order; a crash inside func is a harness error."""
     payloads = list(payloads)
     if not payloads:
         return []
     procs = min(procs or NCPU, len(payloads))
-    if procs <= 1 or os.environ.get("VERIF_NOFORK"):
+    if (procs <= 1 and not fresh) or os.environ.get("VERIF_NOFORK"):
         outs = [_shard_entry((func, p)) for p in payloads]
     else:
         ctx = mp.get_context("fork")
-        with ctx.Pool(procs) as pool:
+        with ctx.Pool(procs, maxtasksperchild=1 if fresh else None) as pool:
             outs = pool.map(_shard_entry, [(func, p) for p in payloads], chunksize=1)
     res = []
     for tag, val in outs:
